@@ -607,6 +607,7 @@ pub fn run(tier: Tier, _seed: u64, tally: &mut Tally) -> CheckMeta {
             }
         }
     }
+    real_cache_overlap(tally);
     tally.validated = tally.evaluations + validated;
     if tier.thorough() {
         free_running(tally);
@@ -622,9 +623,85 @@ pub fn run(tier: Tier, _seed: u64, tally: &mut Tally) -> CheckMeta {
             "all shared mutable state reachable from these calls is the guard stack (mutex) and the caches (behind the Cache trait); the guard mutex is replaced by pdf::verif::Mutex (same interface, std mutex inside) in the checked build".into(),
             "VerifCache is a transliteration of globalcache 0.2.4 SyncCache::get (source hash checked at self-check; sequential traces compared with the real SyncCache)".into(),
             "Lazy::load (once_cell) is not in the call alphabet".into(),
+            "the glue impl Cache for Arc<SyncCache> is exercised on free-running threads only: one forced overlap (a load held inside the cache while a second thread waits for it, failing and succeeding) in every run, the thread bodies of the programs in the thorough tier".into(),
         ],
         exhaustive: true,
         bounds: json!({"preemptions_2_threads": if tier.thorough() { 3 } else { 2 }, "preemptions_3_threads": if tier.thorough() { 2 } else { 1 }}),
+    }
+}
+
+/// The glue between the library and the real compute-once cache (`impl Cache for Arc<SyncCache>`) is not under the
+/// scheduler (the instrumented cache stands in for it there). One overlap that matters is forced here on real threads
+/// with the real cache: thread A's load of an object is held inside the cache's compute step (through the public `Log`
+/// hook) until thread B has asked for the same object and waits for A's result; the load fails / succeeds. Both must get
+/// the answer a lone reader gets. (If B is late the overlap does not happen and nothing is learnt: no false alarm.)
+fn real_cache_overlap(tally: &mut Tally) {
+    use std::sync::{Condvar, Mutex as StdMutex};
+    struct Gate {
+        key: u64,
+        state: StdMutex<u8>,
+        cv: Condvar,
+    }
+    impl pdf::file::Log for Gate {
+        fn load_object(&self, r: PlainRef) {
+            if r.id == self.key {
+                let mut s = self.state.lock().unwrap();
+                if *s == 0 {
+                    *s = 1;
+                    self.cv.notify_all();
+                    drop(s);
+                    // B is released now: give it time to reach the cache and wait there
+                    std::thread::sleep(std::time::Duration::from_millis(120));
+                }
+            }
+        }
+    }
+    // (object, what): a font pair that fails to load (each names the other as descendant), a font that loads
+    for (key, what) in [(20u64, "failing load"), (9, "successful load")] {
+        tally.evaluations += 1;
+        let call = |file: &File<Vec<u8>, std::sync::Arc<pdf::file::SyncCache<PlainRef, OCResult>>, std::sync::Arc<pdf::file::SyncCache<PlainRef, SCResult>>, Gate>| -> String {
+            match file.resolver().get::<Font>(Ref::new(PlainRef { id: key, gen: 0 })) {
+                Ok(f) => format!("Font({:?})", f.name.as_ref().map(|n| n.as_str().to_string())),
+                Err(e) => ev(&e),
+            }
+        };
+        let open = |armed: bool| FileOptions::cached().log(Gate { key, state: StdMutex::new(if armed { 0 } else { 2 }), cv: Condvar::new() }).load(doc()).expect("doc loads");
+        let solo = call(&open(false));
+        let file = std::sync::Arc::new(open(true));
+        let (tx, rx) = std::sync::mpsc::channel::<(usize, String)>();
+        for t in 0..2usize {
+            let file = file.clone();
+            let tx = tx.clone();
+            std::thread::spawn(move || {
+                if t == 1 {
+                    let g = file.log();
+                    let mut s = g.state.lock().unwrap();
+                    while *s == 0 {
+                        s = g.cv.wait(s).unwrap();
+                    }
+                }
+                let r = catch_unwind(AssertUnwindSafe(|| match file.resolver().get::<Font>(Ref::new(PlainRef { id: key, gen: 0 })) {
+                    Ok(f) => format!("Font({:?})", f.name.as_ref().map(|n| n.as_str().to_string())),
+                    Err(e) => ev(&e),
+                }));
+                let _ = tx.send((t, r.unwrap_or_else(|p| format!("PANIC:{}", p.downcast_ref::<String>().cloned().or_else(|| p.downcast_ref::<&str>().map(|s| s.to_string())).unwrap_or_default()))));
+            });
+        }
+        let mut answers = vec![None, None];
+        for _ in 0..2 {
+            match rx.recv_timeout(std::time::Duration::from_secs(20)) {
+                Ok((t, a)) => answers[t] = Some(a),
+                Err(_) => break,
+            }
+        }
+        let bad = answers.iter().enumerate().find(|(_, a)| a.as_deref() != Some(solo.as_str()));
+        match bad {
+            None => tally.outcome("real-cache-overlap-ok"),
+            Some((t, a)) => {
+                tally.outcome("real-cache-overlap-differs");
+                tally.fail("c13.real-cache", if a.is_none() { "no-answer" } else { "different-answer" }, vec![format!("load={}", what)], format!("real SyncCache, thread A holds its {} of object {} inside the cache while thread B asks for the same object: thread {} answered {:?}, a lone reader gets `{}`", what, key, ["A", "B"][t], a, solo), json!({"engine": "c13.real-cache"}));
+            }
+        }
     }
 }
 
